@@ -16,7 +16,7 @@ def build_jobs(tier, seed):
     jobs += img.simple_jobs(J, H, PROPS, k, tier, gpt='all')
     jobs.append(J(H['vhdx'], dict(P, cuts=k, sigs='sym'), split_depth=14))
     jobs.append(J(H['vmdk-text'], dict(P)))
-    for mg in (('none', 'qcow2', 'luks') if tier == 'quick' else
+    for mg in (('none', 'qcow2', 'luks', 'vmdk') if tier == 'quick' else
                ('none', 'qcow2', 'luks', 'vhd', 'qed', 'junk', 'vmdk',
                 'vhdx')):
         jobs.append(J(H['cli'], dict(P, magic=mg, overlays='single',
